@@ -269,6 +269,8 @@ def gen_cases(rng, insts, tier):
                     for dpv in rng.sample([1, 2, 3, 4, 7, 8, 16, max(pad, 1), M], 3):
                         if R <= 1 or max(lm(dpv, pad), 1) * others <= M:
                             variants.append((2, [], dpv))
+                elif inst.pv == 0 and R >= 2 and pad != 0:
+                    pass            # no multiple of 0 is >= a non-zero extent: outside the domain of the padded layouts
                 else:
                     if R <= 1 or max(lm(inst.pv, pad), 1) * others <= M:
                         variants.append((0, [], None))
